@@ -443,6 +443,11 @@ def judge(c, t, p, branch, sel, amb, res, entry, ext_types, live=None):
     if amb:
         c.count("ambiguous_pair_directory_without_index_plus_sibling_html (not judged)")
         return
+    if branch == "html-fallback" and bare.endswith(".html"):
+        # 'X.html' requested, only 'X.html.html' exists: the server deliberately does not append '.html' to a path that already
+        # ends in it; the documented lookup does not speak about this double suffix - recorded, not judged
+        c.count("html_fallback_for_a_path_that_already_ends_in_html (not judged)")
+        return
     if "#" in p and "?" in p and p.index("#") < p.index("?"):
         # a '#' before the '?': by RFC 3986 the fragment starts at the '#' and swallows the '?'; the url library of the server
         # cuts at the '?' first. No client sends a fragment at all - the corner is recorded, not judged (C01 does scan it)
